@@ -24,6 +24,8 @@ def run(ctx):
     E.r_singleuse_bits(prog, rep)
     E.r_invalid_window(prog, rep)
     E.r_epoch_persist(prog, rep)
+    E.r_state_order(prog, rep)
+    E.r_discovered_demanded(prog, rep)
 
 
 from rules.engine_variants import C01 as VARIANTS  # noqa: E402
